@@ -539,7 +539,13 @@ func (c *compiler) compile(tok *token) []instruction {
 		const sliceObj, sliceBegin, sliceEnd = 0, 1, 2
 		res = append(res, c.compile(tok.Tokens[sliceObj])...)
 		res = append(res, c.compile(tok.Tokens[sliceBegin])...)
-		res = append(res, c.compile(tok.Tokens[sliceEnd])...)
+		if end := tok.Tokens[sliceEnd]; end.Symbol == "(int)" && end.Text == "-1" {
+			// the parser's stand-in for a missing upper bound (a constant -1 is not a valid bound): the operand's
+			// length, passed as nil so that a bound that is computed to be negative at run time stays an error
+			res = append(res, c.compile(&token{Pos: end.Pos, Symbol: "nil", Text: "nil"})...)
+		} else {
+			res = append(res, c.compile(end)...)
+		}
 		res = append(res, instruction{Code: codeSlice})
 	case "func":
 		const funcArguments, funcReturns, funcBlock = 0, 1, 2
